@@ -419,24 +419,32 @@ namespace rvutils::pbo
             const size_t buff_size = 256;
             char buff[buff_size];
             auto start_pos = file.tellg();
-            file.seekg(0, std::ios::end);;
-            auto eof = file.tellg();
-            file.seekg(start_pos);
-            int runs = 0;
-            do
+            if (start_pos < 0)
+            { // stream is in a failed state already
+                return -1;
+            }
+            size_t total = 0;
+            while (true)
             {
                 file.read(buff, buff_size);
-                for (size_t i = 0; i < buff_size; i++)
+                // only what was actually read counts, the rest of the buffer is stale
+                auto got = static_cast<size_t>(file.gcount());
+                for (size_t i = 0; i < got; i++)
                 {
                     if (buff[i] == '\0')
                     {
                         file.clear();
                         file.seekg(start_pos);
-                        return i + (runs * buff_size) + 1;
+                        return total + i + 1;
                     }
                 }
-                runs++;
-            } while (file.tellg() < eof && !file.eof());
+                total += got;
+                if (got < buff_size)
+                { // end of file reached without finding the terminator
+                    break;
+                }
+            }
+            file.clear();
             file.seekg(start_pos);
             return -1;
         }
@@ -530,6 +538,12 @@ namespace rvutils::pbo
 
             // read in the whole data available into helper struct
             file.read(reinterpret_cast<char*>(&data_mapped), sizeof(header::bin));
+            if (static_cast<size_t>(file.gcount()) != sizeof(header::bin))
+            { // the file ends inside the entry
+                file.clear();
+                file.seekg(start_pos);
+                return {};
+            }
             file.clear();
 
 
@@ -1219,6 +1233,11 @@ namespace rvutils::pbo
             {
                 m_headers.push_back(*opt_header);
             }
+            if (!opt_header.has_value())
+            { // the entry table is not terminated, the file is truncated
+                m_good = false;
+                return;
+            }
             m_headers.push_back(*opt_header);
 #if _DEBUG
             DBG_POS = file.tellg();
@@ -1226,12 +1245,19 @@ namespace rvutils::pbo
 
 
             auto offset = file.tellg();
+            file.seekg(0, std::ios::end);
+            auto file_end = file.tellg();
             // Add data-sections to headers
             for (auto &it : m_headers)
             {
                 it.block_data.start = offset;
                 offset += it.size;
                 it.block_data.end = offset;
+                if (offset > file_end)
+                { // an entry claims more data than the file holds
+                    m_good = false;
+                    return;
+                }
             }
 
             // All fine here, end processing.
